@@ -34,6 +34,7 @@ type c05Round struct {
 	Gate      string // "" | "write.locked" | "write.pre_flush": hold the first writer there while the others try
 	MaxSize   int
 	StopMid   bool // the client reads nothing until Stop has been called while the handlers are stalled in Write
+	Linger    bool // every frame is a search result entry and the handlers keep running until the client has received everything (or gives up)
 	BadFirst  bool // every writer first tries to write a response that cannot be encoded (a typed nil; the panic is recovered by the handler)
 	WTimeout  int  // ms; > 0: the server is created WithWriteTimeout and the client reads nothing until the write deadline has expired
 }
@@ -118,6 +119,9 @@ func C05(args []string) error {
 		add(c05Round{Writers: 8, Frames: 500, Transport: tr, MaxSize: 3500, Procs: 4, StopMid: true})
 		add(c05Round{Writers: 8, Frames: 3, Transport: tr, MaxSize: 3 << 20, Procs: 4, StopMid: true})
 	}
+	// long-running searches: entries must reach the client while their handlers are still at work
+	add(c05Round{Writers: 8, Frames: 3, Transport: "plain", MaxSize: 300, Procs: 4, Linger: true})
+	add(c05Round{Writers: 4, Frames: 2, Transport: "tls", MaxSize: 900, Procs: 2, Linger: true})
 	// a Write that panics while it encodes its response (recovered by the handler) leaves the connection's writer as it was
 	add(c05Round{Writers: 8, Frames: 4, Transport: "plain", MaxSize: 9000, Procs: 4, BadFirst: true})
 	add(c05Round{Writers: 3, Frames: 3, Transport: "tls", MaxSize: 300, Procs: 2, BadFirst: true})
@@ -168,6 +172,7 @@ func c05Run(rd c05Round, out *hx.Out, seed int64, tm *tlsMaterial) error {
 	var gateOnce sync.Once
 	started := make(chan struct{}, rd.Writers+1)
 	var hwg sync.WaitGroup
+	lingerDone := make(chan struct{})
 	mux, _ := gldap.NewMux()
 	_ = mux.ExtendedOperation(func(w *gldap.ResponseWriter, r *gldap.Request) {
 		er := r.NewExtendedResponse(gldap.WithResponseCode(gldap.ResultSuccess))
@@ -193,7 +198,7 @@ func c05Run(rd c05Round, out *hx.Out, seed int64, tm *tlsMaterial) error {
 		for k := 1; k <= rd.Frames; k++ {
 			body := payload(wid, k, sizes(wid, k), seed)
 			var resp gldap.Response
-			if k < rd.Frames {
+			if k < rd.Frames || rd.Linger {
 				e := r.NewSearchResponseEntry(frameDiag(wid, k, body)) // the DN carries the frame's description
 				resp = e
 			} else {
@@ -207,6 +212,9 @@ func c05Run(rd c05Round, out *hx.Out, seed int64, tm *tlsMaterial) error {
 			}
 			atomic.AddInt64(&nwritten, 1)
 			emit(tEvent{Ev: "hwrite", C: fmt.Sprintf("w%d", wid), I: k, Val: v})
+		}
+		if rd.Linger {
+			<-lingerDone // the search goes on (nothing more to send) until the client has seen it all
 		}
 	})
 	if rd.Gate != "" {
@@ -418,6 +426,7 @@ func c05Run(rd c05Round, out *hx.Out, seed int64, tm *tlsMaterial) error {
 	case <-recvDone:
 	case <-time.After(60 * time.Second):
 	}
+	close(lingerDone)
 	// every handler has logged its last Write before the round ends
 	hdone := make(chan struct{})
 	go func() { hwg.Wait(); close(hdone) }()
